@@ -299,7 +299,7 @@ func byKind(k int, name string) Def {
 var enumBases = []string{"byte", "uint8", "uint16", "int16", "uint32", "int32", "uint64", "int64"}
 
 // nSingles is the number of single-definition cases of Case.
-const nSingles = 46
+const nSingles = 47
 
 // NCases is the number of schema cases.
 const NCases = nSingles + nKinds*nKinds
@@ -413,6 +413,14 @@ func Case(i int) (defs []Def, docs bool) {
 		ms.Fields[0].Doc = "[tag(db:\"a\")]"
 		ms.Fields[1].Doc = "[tag(db:\"b\")]"
 		return []Def{st, ms}, true
+	case 46:
+		// doc comments in front of attributes: [flags] and [opcode(..)]
+		symOn = false
+		fl := enumFlags("F")
+		fl.Doc = " doc of F " + printable(1)
+		st := structOpInt("S")
+		st.Doc = " doc of S"
+		return []Def{fl, st}, true
 	case 40:
 		return []Def{unionDocs("U")}, true
 	case 41:
@@ -436,6 +444,15 @@ func Case(i int) (defs []Def, docs bool) {
 // and how many separators are symbolic.
 func styleFor(docs bool, gaps int) *Style {
 	s := &Style{NL: []byte("\n"), gaps: gaps}
+	if docs {
+		// horizontal whitespace between the end of a block comment and the line end
+		switch vstub.Choose(0, 2) {
+		case 1:
+			s.Trail = []byte(" ")
+		case 2:
+			s.Trail = []byte("\t")
+		}
+	}
 	if !symOn {
 		// pair cases: multi-line and one-line layouts only
 		s.gaps = 0
